@@ -104,6 +104,8 @@ def pack_stages(prop, tier, seed):
     if prop == "C03":
         st = [pack_stage("ign1", "ignore", "single", prop, seed), prep_stage("bundle1", "rules", "single", prop),
               prep_stage("bundle2", "rules", "pairq" if q else "pair", prop)]
+        st.append(pack_stage("ign4", "ignore", "quad", prop, seed))        # two negations with a directory rule right before the second
+        st.append(prep_stage("bundle4", "rules", "quad", prop))
         if q:
             st.append(pack_stage("ign2q", "ignore", "pairq", prop, seed))
         else:
@@ -164,7 +166,8 @@ def addr_stages(prop, tier, seed):
     syn = dict(name="syntax", module="Addr", cfg="MC_Addr.cfg", family="addr", judge=ADDR_JUDGE, exhaustive=True,
                overrides={"Part": '"syntaxq"' if q else '"syntax"'}, vh_args=["-props", prop], slices=8 if q else 16, timeout=3000)
     if prop == "C11":
-        return [alg]
+        # the join of a requested registry sub-path onto the registry's answer, as the Builder performs it (first and repeated requests)
+        return [alg, builder_stage("regsub", prop, seed, {"Adds": "<- MCAddsG", "Pkgs": '{"P1"}', "MaxEdges": "1", "MaxAdds": "2"})]
     if prop == "C07":
         return [syn, addr_rec_stage(tier)]
     if prop == "C06":
@@ -227,10 +230,12 @@ def builder_stages(prop, tier, seed):
         wfault = pack_stage("writefaults", "rt", "none", prop, seed, extra_args=["-mode", "wfaults"])
         return [faults, ufault, wfault]
     regsub = builder_stage("regsub", prop, seed, {"Adds": "<- MCAddsG", "Pkgs": '{"P1"}', "MaxEdges": "1", "MaxAdds": "2"})
+    # packages whose trees are the same except for their own rule file must not share a directory
+    ignvar = builder_stage("ignorevariant", prop, seed, {"Contents": "{3, 5}", "MaxEdges": "1", "Adds": "<- MCAddsR"})
     if prop == "C13":
         # all sequences of up to four Add calls (with repeats) over the four-add universe, each against its canonical order
         perm4 = builder_stage("perm4", prop, seed, {"MaxAdds": "4", "MaxEdges": "0", "Contents": "{1, 2}"})
-        return [coal, base, regsub, sched, conc, perm4, rand_worlds] if not q else [coal, regsub, sched, conc, rand_worlds]
+        return [coal, ignvar, base, regsub, sched, conc, perm4, rand_worlds] if not q else [coal, ignvar, regsub, sched, conc, rand_worlds]
     if prop == "C09":
         return [coal] if q else [coal, vers, base]
     raise KeyError(prop)
